@@ -289,7 +289,9 @@ def check_rows_match(row1: Row[Variable], row2: Row[Variable], bb: BB) -> None:
     types on different control-flow paths.
     """
     map1, map2 = {v.name: v for v in row1}, {v.name: v for v in row2}
-    for x in map1.keys() | map2.keys():
+    # Iterate in row order (not over a set of names), so that the variable we report
+    # doesn't depend on the string hash seed
+    for x in map1 | map2:
         # If block signature lengths don't match but no undefined error was thrown, some
         # variables may be shadowing global variables.
         v1, v2 = map1[x], map2[x]
